@@ -384,6 +384,14 @@ struct Gen {
     }
     ops.push_back(o);
   }
+  void initMerge(int target) { Op o; o.kind = INIT; o.a = target; o.opType = 0; ops.push_back(o); }
+  void cleanBase(int nX) {  // a base schema without incorrect members: nX base sets, one structure, two terms
+    Op o; o.kind = NEW_BASE; o.withSchema = true;
+    o.schema.nX = nX; o.schema.sDefs = {nX >= 2 ? 1 : 0}; o.schema.dDefs = {0, 5};
+    for (int i = 0; i < nX + 3; ++i) o.schema.terms.push_back(0);
+    ops.push_back(o);
+    ps.push_back(AP{false, serial++, -1, -1});
+  }
   void exec(int target) { Op o; o.kind = EXEC; o.a = target; ops.push_back(o); if (target < n()) ps[static_cast<size_t>(target)].execd = true; }
   void edit(int target, bool formal = false) {
     Op o; o.kind = EDIT; o.a = target;
@@ -1148,7 +1156,7 @@ Verdict runHistory(Ctx& c, bool deepDiamond) {
   const int mode = deepDiamond ? 3 : c.ipick(0, 2);  // 0 free, 1 chain prefix, 2 diamond prefix, 3 scripted: grandchild under a diamond
   const size_t nOps = static_cast<size_t>(c.ipick(3, 25));
   Gen g(c, nOps);
-  if (mode != 0) {
+  if (mode == 1 || mode == 2) {
     g.newBase(true); g.newBase(true); g.newBase(true);
     g.newOp(0, 1); g.init(3);
     if (mode == 1) { if (c.coin()) g.newOp(3, 2); else g.newOp(2, 3); g.init(4); }
@@ -1168,13 +1176,13 @@ Verdict runHistory(Ctx& c, bool deepDiamond) {
     // two operations over one shared base schema, their merge T (every constituent of the shared schema arrives twice; the
     // second copy gets a fresh identifier on every execution of T), a child G of T with the user's own additions, then T and G
     // executed again after a change below
-    g.budget = std::max<size_t>(g.budget, 24);
-    g.newBase(true); g.newBase(true); g.newBase(true); g.newBase(true);
-    g.newOp(0, 1); g.init(4);
-    g.newOp(0, 2); g.init(5);
-    g.newOp(4, 5); g.init(6);
-    g.newOp(6, 3); g.init(7);
-    g.exec(7);
+    g.budget = std::max<size_t>(g.budget, 28);
+    g.cleanBase(c.ipick(1, 2)); g.cleanBase(c.ipick(1, 2)); g.cleanBase(1); g.cleanBase(1);
+    g.newOp(0, 1); g.initMerge(4);
+    g.newOp(0, 2); g.initMerge(5);
+    g.newOp(4, 5); g.initMerge(6);
+    g.newOp(6, 3); g.initMerge(7);
+    g.exec(4); g.exec(5); g.exec(6); g.exec(7);
     const int additions = c.ipick(1, 3);
     for (int i = 0; i < additions; ++i) g.edit(7, true);
     if (c.coin()) g.step(true);
